@@ -216,9 +216,11 @@ class Det(Base):
 
 class PausableDet(Det):
     def pause(self):
+        self.world.maybe_raise(self.name, "pause")
         self.world.log(self.name, "pause")
 
     def resume(self):
+        self.world.maybe_raise(self.name, "resume")
         self.world.log(self.name, "resume")
 
 
